@@ -7,9 +7,15 @@ Implementation side:
     that arrive on the listener's stdin are the observable;
   * payloads: the real event classes' payload();
   * ticks: the real Supervisor.tick() under a patched clock (time.time), events observed through events.subscribe.
-Correspondence against Model/Envelope.lean and Model/Tick.lean.
-Monitor: an independent, byte-oriented listener-side parser (not childutils) applied to the bytes written, and
-the tick rule recomputed with exact integer arithmetic.
+  * what is announced and when (props/_c11_notify.py): histories of group additions / removals on the real Supervisor with a
+    fault at every point where one can fail; the real Subprocess.finish over a real POutputDispatcher; the real
+    Subprocess.change_state; and the unmodified Supervisor.run()/runforever() over harness/simkernel.py with children that
+    write, exit, are restarted, groups added / removed at run time (a FastCGI group whose socket cannot be bound included),
+    clock steps, shutdown requests, sendRemoteCommEvent calls.
+Correspondence against Model/Envelope.lean, Model/Tick.lean and Model/Notify.lean.
+Monitors: an independent, byte-oriented listener-side parser (not childutils) applied to the bytes written, the tick rule
+recomputed with exact integer arithmetic, and every notification kind against the ground truth it announces (the keys of
+supervisord.process_groups, the simulated kernel's child table and pipe reads, the daemon state, the clock, the RPC calls).
 """
 import os, sys, types
 from framework import Infra
@@ -23,16 +29,28 @@ TRUSTED = [
     "(the encoder is defined in Lean and compared with Python's on every payload), dict iteration order = insertion order",
     "getProcessStateDescription (the state-name table belongs to C01) and the values pid/tries/expected handed to the "
     "event constructor: that they are the values at the moment of the change is C01's observer theorem, not re-proved here",
-    "one-notification-per-announced-thing is proved and driven here for sendRemoteCommEvent (through the real RPC interface); "
-    "for group add/remove and supervisor state changes over daemon histories it is exercised by C09/C05's system-level runs",
+    "one-notification-per-announced-thing is proved here for sendRemoteCommEvent, for group additions / removals (every history, "
+    "every fault point; over the regenerated statement order of add_process_group / remove_process_group), for the output flushed "
+    "while a child is reaped (over the regenerated statement order of Subprocess.finish and the dispatcher model of C07/C08) and for "
+    "change_state; SUPERVISOR_STATE_CHANGE and the agreement of PROCESS_STATE notifications with the kernel's child table over daemon "
+    "histories are monitored under the real main loop (L2), not proved here (C05's daemon invariant proves STOPPING is announced once)",
+    "Model/Notify.lean: opaque calls (after_setuid, make_group, before_remove, ...) either return or raise and have no other effect on "
+    "the table or the notifications; harness/simkernel.py stands for the kernel in the L2 runs (as in C02/C05/C06/C07)",
     "clock readings are dyadic (n/1024 s) so that float % and int() are exact; lone surrogates in names/payloads are outside the inputs",
 ]
 ASSUMPTIONS = ["names and identifiers are free of spaces, colons and newlines (the property's own restriction)"]
 RULE = ("envelope cases = (identifier, pool name, serials, concrete event class, payload text) with payload classes empty / ASCII / "
         "Latin-1 / BMP / astral / mixed / containing newlines, colons and 'len:' look-alikes; payload cases = every event class "
         "with its constructor arguments incl. non-UTF-8 byte data; tick cases = clock reading sequences (regular, irregular, "
-        "skipping slices, backwards, repeated); non-trivial = non-ASCII payload, or at least one tick emitted / a backward step; "
-        "distinct = distinct canonical case")
+        "skipping slices, backwards, repeated); group histories = every sequence of up to 3 (thorough: 4) operations add / remove x two groups x "
+        "every fault point (after_setuid, make_group, before_remove raising; processes still running), directly or through the RPC methods, "
+        "plus random longer ones with a FastCGI group whose socket directory comes and goes; reaping cases = (dispatcher configuration, "
+        "token-aware stream, cut into reads made while the child lives and the read made by finish(), which branch of finish()), every cut of "
+        "every stream of up to 3 symbols over {BEGIN, END, token prefix, x}; change_state cases = all state pairs, random counters; L2 scenarios "
+        "= random simkernel scripts (2-5 programs in 2-3 groups, tagged writes incl. whole and split capture sections, exits in the pass of the "
+        "last write with 20-50% of ready descriptors not reported, autorestart, fork/pipe faults, start/stop RPCs, group add/remove/stop, "
+        "sendRemoteCommEvent, clock jumps forwards and backwards, shutdown signals); non-trivial = non-ASCII payload, at least one tick / a backward "
+        "step, at least one notification; distinct = distinct canonical case")
 
 SP = {'EventListenerStates': None}
 
@@ -428,11 +446,16 @@ def run(ctx):
     nt.group_histories(ctx)
     nt.finish_cases(ctx)
     nt.change_cases(ctx)
+    nt.l2_all(ctx)
 
 
 def replay(ctx, data):
     from supervisor import events
     inp = data['input']
+    from props import _c11_notify as nt
+    if inp.get('what') in ('group-history', 'finish', 'change', 'l2'):
+        nt.replay(ctx, inp)
+        return
     classes = class_table()
     if inp['what'] == 'envelope':
         cls = [c for c in classes if c.__name__ == inp['class']][0]
@@ -463,10 +486,15 @@ def replay(ctx, data):
 # ---- MANIFEST metadata -----------------------------------------------------------------------
 TECHNIQUE = ("Lean 4 theorems over an interpreter of the regenerated header template, field bindings, payload templates, event "
              "registry and tick comparisons; UTF-8 encoder defined in Lean; differential correspondence against the real pool, "
-             "event classes and Supervisor.tick under a patched clock; independent byte-level listener parser as monitor")
+             "event classes and Supervisor.tick under a patched clock; independent byte-level listener parser as monitor; statement "
+             "sequences of add_process_group / remove_process_group / Subprocess.finish / change_state regenerated as step lists, interpreted "
+             "by Model/Notify.lean (finish through the dispatcher model of C07/C08), order checked by decided predicates whose soundness is "
+             "proved for every step list; differential correspondence against the real Supervisor / Subprocess; ground-truth monitors for "
+             "every notification kind under the unmodified main loop on the simulated kernel")
 LEVEL_TEXT = ("header_roundtrip, eventname_concrete (decided over the whole regenerated registry), len_ascii_partial with the "
               "counterexample len_not_byte_length (open finding F2), payload content theorems for every notification kind, send_remote_comm (one-to-one), slice_seconds and tick_exact (every clock reading "
-              "sequence, also backwards and skipping) are proved; the model is run against the real implementation on every "
+              "sequence, also backwards and skipping), add_truthful / remove_truthful / group_history_view (group notifications and the table in bijection over every history and fault point), "
+              "finish_truthful / finish_pids (output flushed at reap time carries the child's pid and precedes the exit notification), change_state_truthful are proved; the model is run against the real implementation on every "
               "concrete event class with ASCII / non-ASCII payloads and on random clock sequences")
 LEVEL_NOTE = "F2 (len counts characters) and F15 (repr payload for undecodable child output) are open known findings; see DESIGN.md C11"
 DESIGN_REF = "DESIGN.md section 6, C11"
